@@ -109,6 +109,17 @@ CLAIMED = {
          'Two defects repaired by fix: commits (byte index aliasing; first name record).',
     technique='Coq proof (bit-level field lemmas, allocation invariant by induction) over hand model; regenerated constants (tie A); differential correspondence with reference oracle (tie B)',
     design='6/C18'),
+ 'C19': dict(
+    text='Theorems over a list-level model of gr_slot_linebreak_before, the segment-global reverseSlots and the first/last bracket of Segment::justify: '
+         '(1) any sequence of cuts and justify calls that triggers no reversal leaves every slot in place (lines are only ever split where cut); '
+         '(2) a reversal is sound exactly under its precondition (m_last is the end of the chain headed by m_first): it permutes that line only; '
+         '(3) the unconditional statement is REFUTED (vm_compute witness: cut, then reversal runs with a stale m_last).  Tie: hooks record linebreak / '
+         'reverse / set-ends events; the extracted model replays them against per-line snapshots and must agree whenever no reversal is expected.  Oracle: '
+         'after every call each line is the same well-formed chain (same slots, order, prev inverse), origins and width finite, destroy succeeds (ASan).',
+    note='Two genuine defects are recorded as known findings, classified by trigger (direction differs from the font\'s; direction flags 2/4/6 used as bool); '
+         'violations outside those trigger classes are reported.  Sentinel line ends (silf flags & 1) and the numeric justification itself are not modelled.',
+    technique='Coq proof (preservation without reversal, soundness under precondition, refutation witness) + trace-refinement correspondence via hooks + per-line oracle',
+    design='6/C19'),
  'C20': dict(
     text='Machine-checked theorems (Coq 8.16) over a model of gr_str_to_tag / gr_tag_to_str / zeropad for ALL C strings and ALL '
          '32-bit tags: value = big-endian of the first min(4,len) bytes, no read beyond the NUL (checked reads on the exact region), '
